@@ -419,6 +419,18 @@ class _Linalg:
         return getattr(_np.linalg, n)
 
 
+def linspace(start, stop, num=50, endpoint=True, **kw):
+    if not _isobj(start, stop):
+        return _np.linspace(start, stop, num, endpoint=endpoint, **kw)
+    if not endpoint or kw:
+        raise OutsideFragment("np.linspace with symbolic end points and options")
+    a, b = _elem(start), _elem(stop)
+    out = _np.empty(num, dtype=object).view(S.SymArray)
+    for k in range(num):
+        out[k] = a + (b - a) * Fraction(k, num - 1) if num > 1 else a
+    return out
+
+
 def trapz(y, x=None, dx=1.0, axis=-1):
     if not _isobj(y, x):
         return _np.trapz(y, x=x, dx=dx, axis=axis)
@@ -446,7 +458,7 @@ _OVERRIDES = dict(sin=sin, cos=cos, tan=tan, sqrt=sqrt, exp=exp, log=log, log10=
                   einsum=einsum, max=max_, amax=max_, min=min_, amin=min_, where=where, interp=interp, divide=divide,
                   abs=abs_, absolute=abs_, power=power, real=real, imag=imag, iscomplexobj=iscomplexobj,
                   zeros=zeros, ones=ones, empty=empty, full=full, zeros_like=zeros_like, ones_like=ones_like, eye=eye,
-                  identity=identity, array=array, asarray=asarray, trapz=trapz, isnan=isnan,
+                  identity=identity, array=array, asarray=asarray, trapz=trapz, linspace=linspace, isnan=isnan,
                   count_nonzero=count_nonzero)
 
 
